@@ -33,8 +33,11 @@ import collections
 
 ROOT = os.path.dirname(os.path.dirname(os.path.abspath(__file__)))
 REPLAYS = os.path.join(ROOT, 'replays')
-EVIDENCE = os.path.join(ROOT, 'evidence')
-OUT = os.path.join(ROOT, 'out')
+# VERIF_SCRATCH redirects everything a run writes (evidence, new replays) away from /verif:
+# used when a seeded change is evaluated in a scratch worktree, never by a registered command
+_SCRATCH = os.environ.get('VERIF_SCRATCH')
+EVIDENCE = os.path.join(_SCRATCH or ROOT, 'evidence')
+OUT = os.path.join(_SCRATCH or ROOT, 'out')
 KNOWN = os.path.join(ROOT, 'known_findings.json')
 
 
